@@ -1,7 +1,7 @@
 (* C04 — MySQL: emitted DDL is executable in order and leaves the declared schema; every MODIFY keeps the
    column's current type, nullability and default.  Pinned statements only.
    Engine = the MySQL catalog MODEL of Model/Engine.v (modelled, not verified: no server in the sandbox). *)
-From VV.MYSQL Require Import Spec SpecKeys ModifyP WitnessP SimP SimKeysP.
+From VV.MYSQL Require Import Spec SpecKeys SpecCreate ModifyP WitnessP SimP SimKeysP SimCreateP.
 
 (* ------------------------------------------------------------------------------------------------------
    1. The history-dependent part, for ALL inputs: the MODIFY COLUMN emitted for a ModifyColumn{Type,
@@ -234,8 +234,8 @@ Check C04_composite_member_name_drift :
    3. The simulation Sim s c := c = catalog_of s, carried through build_plan_queries' loop and over histories
       of any length, and the action kinds for which one step is proved (the hypotheses are the decidable
       booleans of Model/Spec.v; their negations are the known-finding classes or violated assumptions).
-      Not yet proved per kind: CreateTable, AddConstraint of a primary / foreign key, RemoveConstraint of a key,
-      RenameTable, RenameColumn — for those the claim rests on the oracle run. *)
+      Not yet proved per kind: AddConstraint of a primary / foreign key, RemoveConstraint of a key, RenameTable,
+      RenameColumn — for those the claim rests on the oracle run. *)
 Theorem C04_Sim_plan : forall acts s s',
   (forall i a, nth_error acts i = Some a -> action_sim (schema_at s acts i) a) ->
   apply_all s acts = Ok s' ->
@@ -261,6 +261,14 @@ Check C04_Sim_history : forall plans s s',
                   forall i a, nth_error (p_actions p) i = Some a -> action_sim (schema_at sb (p_actions p) i) a) ->
   apply_all s (flat_map p_actions plans) = Ok s' ->
   run_history (catalog_of s) s plans = Some (catalog_of s').
+
+(* CREATE TABLE with its PRIMARY KEY / inline UNIQUE KEY / FOREIGN KEY clauses (and the indexes MySQL creates
+   implicitly for them) followed by the CREATE INDEX statements; the FOREIGN KEY clauses are taken under
+   "the engine accepts them" (create_table_sim_hyp, Model/SpecCreate.v) *)
+Theorem sim_mysql_create_table : forall s a, create_table_sim_hyp s a = true -> action_sim s a.
+Proof. exact sim_create_table. Qed.
+Print Assumptions sim_mysql_create_table.
+Check sim_mysql_create_table : forall s a, create_table_sim_hyp s a = true -> action_sim s a.
 
 Theorem sim_mysql_delete_table : forall s P t s' c,
   Sim s c -> apply_action s (DeleteTable t) = Ok s' -> referenced_by_other s t = false ->
@@ -328,6 +336,10 @@ Example C04_sim_hypotheses_satisfiable :
   add_column_sim_hyp ok_modify_schema (AddColumn "t" (pcol "body" (TSimple Text) false) (Some "''")) = true /\
   delete_column_sim_hyp ok_modify_schema (DeleteColumn "t" "name") = true /\
   sim_proved_for ok_modify_schema (DeleteTable "t") = true /\
+  create_table_sim_hyp ok_modify_schema
+    (CreateTable "post" [pcol "id" (TSimple Integer) false; pcol "t_id" (TSimple Integer) true; pcol "title" (TVarchar 255) false]
+                 [CPrimaryKey true ["id"]; CUnique None ["title"]; CIndex None ["t_id"; "title"];
+                  CForeignKey None ["t_id"] "t" ["id"] (Some Cascade) None]) = true /\
   add_check_sim_hyp ok_modify_schema (AddConstraint "t" (CCheck "ck" "id > 0")) = true /\
   add_key_full_hyp ok_modify_schema (AddConstraint "t" (CUnique None ["name"])) = true /\
   remove_check_sim_hyp [mkTable "t" None [pcol "id" (TSimple Integer) false] [CPrimaryKey false ["id"]; CCheck "ck" "id > 0"]]
